@@ -105,6 +105,9 @@ pub struct Job {
     pub probes: u32,
     #[serde(default)]
     pub tag: String,
+    /// record the onion payload bytes of every HTLC in the trace (C13 payload clause)
+    #[serde(default)]
+    pub payload: bool,
 }
 
 struct VBlocks;
@@ -185,7 +188,8 @@ pub fn answer_json(i: u64, resp: &HtlcAcceptedResponse) -> Value {
         }
         "continue" => {
             if let Some(p) = v.get("payload").and_then(|p| p.as_str()) {
-                o["payload"] = json!(p);
+                o["payload"] = json!("rewritten");
+                o["pbytes"] = json!(hex::decode(p).unwrap_or_default());
             }
         }
         _ => {}
@@ -215,7 +219,9 @@ pub fn install_panic_hook() {
             .map(|l| format!("{}:{}", l.file().rsplit('/').next().unwrap_or(""), l.line()))
             .unwrap_or_default();
         let file = info.location().map(|l| l.file().to_string()).unwrap_or_default();
-        if !file.starts_with("/repo/") && !file.contains("/.cargo/") && !file.contains("/rustc/") && !file.contains("/library/") {
+        // plugin code only ever runs inside spawned tasks; the driver is the root future
+        let in_task = tokio::task::try_id().is_some();
+        if !in_task || (!file.starts_with("/repo/") && !file.contains("/.cargo/") && !file.contains("/rustc/") && !file.contains("/library/")) {
             eprintln!("HARNESS PANIC (harness code): {} at {}", msg, loc);
             std::process::exit(2);
         }
@@ -226,6 +232,9 @@ pub fn install_panic_hook() {
             loc
         };
         let short: String = msg.chars().take(60).collect();
+        if std::env::var("VFH_DEBUG").is_ok() {
+            eprintln!("PANIC (recorded): {} at {}", msg, file);
+        }
         PANICS.with(|p| p.borrow_mut().push(json!({"o":"panic","msg":short,"loc":loc})));
     }));
 }
@@ -378,6 +387,19 @@ impl Driver {
         });
         settle().await;
         let mut sp = serde_json::to_value(SpecOut(&spec)).unwrap();
+        if self.job.payload {
+            let meta = cat::metadata_bytes(&spec, &self.job.scen.invs, &mut self.cache);
+            sp["payload_in"] = json!(cat::encode_records(&cat::payload_records(&spec, meta)));
+        }
+        let big = spec.amt > 2_000_000_000 || spec.total > 2_000_000_000 || spec.decl > 2_000_000_000
+            || spec.exp > 2_000_000_000 || spec.rel.unsigned_abs() > 2_000_000_000;
+        if big {
+            // beyond TLC's integers: judged only for "answered exactly once, no panic"
+            for k in ["amt", "total", "decl", "exp", "rel"] {
+                sp[k] = json!(0);
+            }
+        }
+        sp["big"] = json!(big);
         sp["i"] = json!(i);
         sp["ev"] = json!("htlc");
         self.line(sp);
